@@ -157,7 +157,7 @@ class WireOracle:
             if prop['proto'] == 1:        # IKE_SA rekey: SKEYSEED = prf(SK_d (old), g^ir (new) | Ni | Nr), new SPIs from the SA payloads
                 new_i, new_r = sa_q['proposals'][0]['spi'], prop['spi']
                 keys = self.kdf.ike_keys(suite['prf'], suite['integ'], suite['encr_bits'], ni, nr, new_i, new_r, secret,
-                                        old_sk_d=ctx.keys['sk_d'])
+                                        old_sk_d=ctx.keys['sk_d'], old_prf_id=ctx.suite['prf'])
                 # the exchange initiator becomes the initiator of the new IKE_SA
                 self.ikes[(new_i, new_r)] = IkeCtx(new_i, new_r, suite, keys, ni, nr, None, None, parent=ctx)
                 return 'rekey-ike'
